@@ -229,6 +229,20 @@ def merge_val(c, a, b, name="m"):
         return a
     if a is None and b is None:
         return None
+    if isinstance(a, ObjV) and a.cls == "__yields__" or isinstance(b, ObjV) and b.cls == "__yields__":
+        # what a generator has yielded: opaque on one side (loop cut by an invariant), a known list on the other
+        def known(v, g):
+            if isinstance(v, ListV):
+                return g, v
+            if isinstance(v, ObjV) and "when" in v.fields:
+                return z3.And(g, v.fields["when"]), v.fields["items"]
+            return None
+        ka, kb = known(a, c), known(b, z3.Not(c))
+        if ka is not None and kb is None:
+            return ObjV("__yields__", {"when": ka[0], "items": ka[1]})
+        if kb is not None and ka is None:
+            return ObjV("__yields__", {"when": kb[0], "items": kb[1]})
+        return ObjV("__yields__", {})
     if isinstance(a, bool):
         a = z3.BoolVal(a)
     if isinstance(b, bool):
